@@ -391,6 +391,10 @@ func checkC13(c OutCase) h.Outcome {
 		return base
 	}
 	xml, sp, err := c.produce()
+	if err != nil && (c.SP.Sig.FailSign || c.SP.Enc.FailSign) && !errors.Is(err, errHeldChanged) {
+		o.Classes = append(o.Classes, "failing-signer:error")
+		return o
+	}
 	if err != nil {
 		o.Violation = h.V("build-error", "builder failed: %v", err)
 		return o
@@ -735,7 +739,14 @@ func checkC15(c OutCase) h.Outcome {
 func b64(b []byte) string { return h.Encode(b, h.Presentation{}) }
 
 func TestC13(t *testing.T) {
-	h.RunProp(t, "C13", func(t *rapid.T) OutCase { return genOutCase(t, true) }, checkC13)
+	h.RunProp(t, "C13", func(t *rapid.T) OutCase {
+		c := genOutCase(t, true)
+		if rapid.IntRange(0, 11).Draw(t, "failingSigner") == 0 {
+			// the key that should sign cannot: the builders may fail, they must not hand out something unsigned
+			c.SP.Sig.FailSign, c.SP.Enc.FailSign = true, true
+		}
+		return c
+	}, checkC13)
 }
 func TestC13_Replay(t *testing.T) { h.RunReplay(t, "C13", checkC13) }
 func TestC15(t *testing.T) {
